@@ -1,5 +1,5 @@
 /*@harness
-{"tier":"quick","mode":"unbounded","tus":["src/comm.c"],"functions":["telnet_neg"],
+{"tier":"quick","mode":"unbounded","tus":["src/comm.c"],"stub_out":["add_message","add_vmessage","flush_message"],"functions":["telnet_neg"],
  "flags":["--bounds-check","--pointer-check"],"timeout":600,
  "expect":["telnet_neg.loop_invariant_step","telnet_neg.pointer_dereference","telnet_neg.assigns","h_telnet_neg.assertion"],
  "native":{},
